@@ -107,8 +107,27 @@ def inventory(prog, bodies):
     return sites
 
 
-def _const(e):
-    return q.const_val(e)
+def _const(e, depth=0):
+    """integer value of a constant expression (with folding of constant arithmetic)"""
+    v = q.const_val(e)
+    if v is not None or depth > 6 or not isinstance(e, tuple):
+        return v
+    e = q.unwrap0(e)
+    if e[0] == "field" and e[2] == "0" and e[1][0] == "bin" and e[1][1].endswith("WithOverflow"):
+        e = e[1]
+    if e[0] == "cast":
+        return _const(e[1], depth + 1)
+    if e[0] == "bin":
+        a, b = _const(e[2], depth + 1), _const(e[3], depth + 1)
+        if a is None or b is None:
+            return None
+        op = q.BIN_NORM.get(e[1], e[1])
+        try:
+            return {"Add": a + b, "Sub": a - b, "Mul": a * b, "Div": a // b if b else None, "Shl": a << b, "Shr": a >> b, "Rem": a % b if b else None,
+                    "BitAnd": a & b, "BitOr": a | b}.get(op)
+        except Exception:
+            return None
+    return None
 
 
 def auto_discharge(prog, site):
@@ -121,6 +140,8 @@ def auto_discharge(prog, site):
             return ("D1", "shift by the constant %d" % _const(ops[1]))
         if msg in ("DivisionByZero", "RemainderByZero") and _const(ops[0]) not in (None, 0):
             return ("D1", "division by the non-zero constant %d" % _const(ops[0]))
+        if msg in ("DivisionByZero", "RemainderByZero") and ops[0][0] == "phi" and all(_const(x) not in (None, 0) for x in ops[0][1]):
+            return ("D1", "division by one of the non-zero constants %s" % [_const(x) for x in ops[0][1]])
         if msg == "Overflow(Div)" and _const(ops[1]) not in (None, -1):
             return ("D1", "division by the constant %d" % _const(ops[1]))
         if msg == "Overflow(Rem)" and _const(ops[1]) not in (None, -1):
@@ -169,6 +190,19 @@ def auto_discharge(prog, site):
         if g:
             return ("D3", g)
         return None
+    if site.kind == "extern" and site.expr is not None and site.expr[0] == "call":
+        nm = site.expr[1]
+        ops = site.operands
+        if nm.endswith("Ratio::new") and len(ops) == 2:
+            g = _guarded_nonzero(b, site.bb, ops[1])
+            if g:
+                return ("D6", g)
+        if nm.endswith("as std::ops::Sub>::sub") and len(ops) == 2:
+            g = _guarded_sub(b, site.bb, ops[0], ops[1])
+            if g:
+                return ("D6", g)
+        if "as std::ops::Div" in nm and len(ops) == 2 and _const(ops[1]) not in (None, 0):
+            return ("D1", "division by the non-zero constant %s" % sig(ops[1]))
     if site.kind == "extern" and site.what == "new" and site.expr is not None and site.expr[1].endswith("PoolKey::new"):
         a = [sig(x) for x in site.operands]
         if len(a) == 2 and all(x.startswith("Denom::") and x.endswith("{}") for x in a) and a[0] != a[1]:
@@ -266,6 +300,12 @@ def _guarded_nonzero(b, bb, d):
             continue
         sl = sig(q.novers(q.unwrap0(L)))
         o = op if truth else q.NEG.get(op)
+        if op in ("Eq", "Ne") and _const(L) is not None and _const(R) is None:
+            L, R = R, L
+            sl = sig(q.novers(q.unwrap0(L)))
+        elif _const(L) is not None and _const(R) is None and o in q.SWAP:
+            L, R, o = R, L, q.SWAP[o]
+            sl = sig(q.novers(q.unwrap0(L)))
         if sl == sd and _const(R) is not None and ((o == "Gt" and _const(R) >= 0) or (o == "Ne" and _const(R) == 0) or (o == "Ge" and _const(R) >= 1)):
             return "divisor dominated by %s %s %d" % (sd[:40], o, _const(R))
     return None
